@@ -243,6 +243,15 @@ def build_driver(name, variant="plain", extra_src=(), extra_flags=()):
     return exe
 
 
+def try_build_driver(name, variant="plain", **kw):
+    """build a driver that uses internal (white-box) names: returns (exe, None) or (None, error text) - a build failure of such a
+    driver is a broken correspondence, the caller goes on with the checks that do not need it"""
+    try:
+        return build_driver(name, variant, **kw), None
+    except BuildError as e:
+        return None, str(e)
+
+
 # ---------------------------------------------------------------------------------------------
 # Coq
 FORBIDDEN = re.compile(r"\b(Admitted|admit|Axiom|Axioms|Parameter|Parameters|Conjecture|Conjectures)\b"
